@@ -60,6 +60,11 @@ class Parser(Emitter):
             result['value'] = fn(*args)
         except formulaserror.XLError as e:
             result['value'] = e  # an error raised by a function is that function's value
+        except Exception as e:
+            # e.g. a math domain error: the call evaluates to #ERROR!, as the whole formula did before
+            if self.debug:
+                traceback.print_exc()
+            result['value'] = formulaserror.from_message(e)
 
         def valsetter(new_value):
             if new_value is not None:
